@@ -9,12 +9,14 @@
      XML 1.0 that the SVG template uses: elements [39]-[44] with attributes [41]
      (unique names: WFC "Unique Att Spec"; values [10] without '<', '&' and the
      quote), character data [14] (stricter than XML: '>' is excluded too, so the
-     forbidden "]]>" cannot occur), and the references "&amp;" "&lt;" "&gt;"
-     [67]/[68] (predefined entities, section 4.6).  Every string the grammar accepts
+     forbidden "]]>" cannot occur), the references "&amp;" "&lt;" "&gt;"
+     [67]/[68] (predefined entities, section 4.6) and the character reference
+     "&#13;" [66].  Every string the grammar accepts
      is a well-formed XML 1.0 document; the grammar accepts fewer strings than XML.
    * [xml_unescape]: the replacement text of those references; [xml_eol]: the
      end-of-line normalisation of section 2.11, which an XML processor performs
-     BEFORE parsing: a literal CR LF or lone CR reaches the application as LF. *)
+     BEFORE parsing: a literal CR LF or lone CR reaches the application as LF,
+     a CR written as "&#13;" reaches it as CR. *)
 From Coq Require Import NArith List Bool.
 Import ListNotations.
 Local Open Scope N_scope.
@@ -50,14 +52,6 @@ Fixpoint svg_split_acc (cur t : list N) : list (list N) :=
 Definition svg_split_nl_dropping_cr (t : list N) : list (list N) :=
   match t with [] => [] | _ => svg_split_acc [] t end.
 
-(* the texts on which the property's reading of "a carriage return before a
-   newline" is unambiguous: no CR CR LF *)
-Fixpoint svg_has_crcrlf (t : list N) : bool :=
-  match t with
-  | [] => false
-  | c :: r => ((c =? 13) && match r with c1 :: c2 :: _ => (c1 =? 13) && (c2 =? 10) | _ => false end) || svg_has_crcrlf r
-  end.
-
 (* ---- the XML subset ------------------------------------------------------ *)
 
 Definition xml_lt : N := 60.  Definition xml_gt : N := 62.  Definition xml_amp : N := 38.
@@ -79,6 +73,8 @@ Definition xml_space (c : N) : bool := (c =? 32) || (c =? 9) || (c =? 10) || (c 
 Definition xml_ent_amp : list N := [38; 97; 109; 112; 59].   (* &amp; *)
 Definition xml_ent_lt : list N := [38; 108; 116; 59].        (* &lt; *)
 Definition xml_ent_gt : list N := [38; 103; 116; 59].        (* &gt; *)
+Definition xml_ref_cr : list N := [38; 35; 49; 51; 59].      (* &#13; *)
+Definition xml_is_ref (e : list N) : Prop := e = xml_ent_amp \/ e = xml_ent_lt \/ e = xml_ent_gt \/ e = xml_ref_cr.
 
 (* ' name="value"' *)
 Definition xml_att (a : list N * list N) : list N := [32] ++ fst a ++ [61; 34] ++ snd a ++ [34].
@@ -90,7 +86,7 @@ Definition xml_atts_ok (atts : list (list N * list N)) : Prop :=
 Inductive XContent : list N -> Prop :=
   | XC_nil : XContent []
   | XC_char : forall c r, xml_text_char c = true -> XContent r -> XContent (c :: r)
-  | XC_ref : forall e r, e = xml_ent_amp \/ e = xml_ent_lt \/ e = xml_ent_gt -> XContent r -> XContent (e ++ r)
+  | XC_ref : forall e r, xml_is_ref e -> XContent r -> XContent (e ++ r)
   | XC_elem : forall e r, XElement e -> XContent r -> XContent (e ++ r)
 with XElement : list N -> Prop :=
   (* [44] EmptyElemTag  '<' Name (S Attribute)* S? '/>' *)
@@ -108,7 +104,7 @@ Definition WF (doc : list N) : Prop :=
 Inductive XEscaped : list N -> Prop :=
   | XS_nil : XEscaped []
   | XS_char : forall c r, c <> xml_lt -> c <> xml_amp -> XEscaped r -> XEscaped (c :: r)
-  | XS_ref : forall e r, e = xml_ent_amp \/ e = xml_ent_lt \/ e = xml_ent_gt -> XEscaped r -> XEscaped (e ++ r).
+  | XS_ref : forall e r, xml_is_ref e -> XEscaped r -> XEscaped (e ++ r).
 
 (* ---- what the application receives ---------------------------------------- *)
 
@@ -119,7 +115,7 @@ Fixpoint svg_starts_with (p t : list N) : bool :=
   | _ :: _, [] => false
   end.
 
-(* replacement of the three references; [skip]: characters of a reference still to
+(* replacement of the four references; [skip]: characters of a reference still to
    be passed over *)
 Fixpoint xml_unescape_go (skip : nat) (t : list N) : list N :=
   match t with
@@ -132,6 +128,7 @@ Fixpoint xml_unescape_go (skip : nat) (t : list N) : list N :=
             if svg_starts_with [97; 109; 112; 59] r then 38 :: xml_unescape_go 4 r
             else if svg_starts_with [108; 116; 59] r then 60 :: xml_unescape_go 3 r
             else if svg_starts_with [103; 116; 59] r then 62 :: xml_unescape_go 3 r
+            else if svg_starts_with [35; 49; 51; 59] r then 13 :: xml_unescape_go 4 r
             else c :: xml_unescape_go 0 r
           else c :: xml_unescape_go 0 r
       end
